@@ -128,6 +128,31 @@ func prepBusy(w *engine.World, ctx sdk.Context, info map[string]any) sdk.Context
 	return ctx
 }
 
+// prepSlash: a delegator whose whole power is locked by a feeds vote holds a redelegation that is still subject to
+// slashing for an infraction of its source validator (ordinary user transactions only: delegate, vote, redelegate, vote).
+func prepSlash(w *engine.World, ctx sdk.Context, info map[string]any) sdk.Context {
+	for _, v := range bandtesting.Validators {
+		tssh.Must(w.Tx(ctx, 0, oracletypes.NewMsgActivate(v.ValAddress)), "activate")
+	}
+	d := tssh.Accounts(1, 91)[0] // a fresh account: no genesis delegation
+	tssh.Must(w.Tx(ctx, 0, banktypes.NewMsgSend(bandtesting.FeePayer.Address, d.Address, uband(1_000_000))), "fund delegator")
+	info["slash_delegator"] = d.Address.String()
+	v0, v1, v2 := bandtesting.Validators[0], bandtesting.Validators[1], bandtesting.Validators[2]
+	amt := sdk.NewInt64Coin("uband", 400_000)
+	tssh.Must(w.Tx(ctx, 0, stakingtypes.NewMsgDelegate(d.Address.String(), v0.ValAddress.String(), amt)), "delegate v0")
+	tssh.Must(w.Tx(ctx, 0, stakingtypes.NewMsgDelegate(d.Address.String(), v2.ValAddress.String(), amt)), "delegate v2")
+	tssh.Must(w.Tx(ctx, 0, feedstypes.NewMsgVote(d.Address.String(), []feedstypes.Signal{{ID: sigA, Power: 400_000}})), "vote 400k")
+	ctx, _ = w.Block(ctx, 1, 0)
+	// half of the power moves from validator 0 to validator 1: at no point is the bonded amount below the lock
+	tssh.Must(w.Tx(ctx, 0, stakingtypes.NewMsgBeginRedelegate(d.Address.String(), v0.ValAddress.String(), v1.ValAddress.String(), amt)), "redelegate v0->v1")
+	info["redelegation_height"] = ctx.BlockHeight()
+	info["redelegation_time"] = ctx.BlockTime()
+	ctx, _ = w.Block(ctx, 1, 0)
+	tssh.Must(w.Tx(ctx, 0, feedstypes.NewMsgVote(d.Address.String(), []feedstypes.Signal{{ID: sigA, Power: 800_000}})), "vote 800k")
+	info["members"] = tssh.Accounts(3, 1)
+	return ctx
+}
+
 // ---- transaction alphabet ------------------------------------------------------------------------
 
 func valAcc(i int) bandtesting.Account { return bandtesting.Validators[i] }
@@ -276,7 +301,6 @@ func Alphabet(info map[string]any) []*twin.TxGen {
 	add("multi.request-signature-then-fail", A, rs(tsstypes.NewTextSignatureOrder([]byte("m2")), uband(1000), A), banktypes.NewMsgSend(A.Address, B.Address, sdk.NewCoins(sdk.NewInt64Coin("nope", 1))))
 	return out
 }
-
 
 // AuthoritySims are governance-authority messages a node may be asked to *simulate* (signatures are not verified in
 // simulation mode, so anybody can); they are executed on a discarded branch and must not influence consensus.
